@@ -1,7 +1,7 @@
 (** C13 — automata conversions and combinators compute the intended regular languages.
     Statements only; proofs live in C13/Proofs*.v. *)
 From Coq Require Import ZArith List Bool.
-From Algo.C13 Require Import Model Spec Lemmas ProofsNFA ProofsDFA ProofsSM ProofsUnion ProofsStar ProofsSubset ProofsSubsetTerm ProofsElim ProofsMinQuot ProofsMinRound.
+From Algo.C13 Require Import Model Spec Lemmas ProofsNFA ProofsDFA ProofsSM ProofsUnion ProofsStar ProofsSubset ProofsSubsetTerm ProofsElim ProofsMinQuot ProofsMinRound ProofsReindex ProofsCombine.
 Import ListNotations.
 Open Scope Z_scope.
 
@@ -65,6 +65,21 @@ Theorem C13_minimize_partial : forall (d m : dfa), dwf d -> dfa_ok d -> minimize
   dwf m /\ dfa_ok m /\ forall w, daccept m w = daccept d w.
 Proof. exact minimize_accept. Qed.
 
+(** ReindexStates terminates and accepts w iff the original does. *)
+Theorem C13_reindex_states : forall (d : dfa), dwf d -> dfa_ok d ->
+  exists r, reindex d = Ok r /\ dwf r /\ dfa_ok r /\ forall w, daccept r w = daccept d w.
+Proof. exact reindex_ok. Qed.
+
+(** CombineDFA terminates, accepts the union of the operand languages, and its final-state map is
+    exact: after reading w the combined DFA is in a state of finalMap[k] iff operand k accepts w. *)
+Theorem C13_combine_dfa : forall (dl : list dfa), Forall (fun d => dwf d /\ dfa_ok d /\ dfa_noeps d) dl ->
+  exists R fm, combine_dfa dl = Ok (R, fm) /\ dwf R /\ dfa_ok R /\ length fm = length dl /\
+    forall w, word_ok w ->
+      daccept R w = existsb (fun d => daccept d w) dl /\
+      forall k d, nth_error dl k = Some d ->
+        exists fk, nth_error fm k = Some fk /\ (In (drun R (dstart R) w) fk <-> daccept d w = true).
+Proof. exact combine_ok. Qed.
+
 (** Union (receiver first) accepts exactly the union of the operand languages. *)
 Theorem C13_union : forall (ns : list nfa) (w : list Z), Forall nwf ns -> word_ok w ->
   exists b, naccept (nunion ns) w = Ok b /\ (b = true <-> exists n, In n ns /\ naccept n w = Ok true).
@@ -121,6 +136,8 @@ Print Assumptions C13_tonfa.
 Print Assumptions C13_todfa.
 Print Assumptions C13_eliminate_dead_states.
 Print Assumptions C13_minimize_partial.
+Print Assumptions C13_reindex_states.
+Print Assumptions C13_combine_dfa.
 Print Assumptions C13_union.
 Print Assumptions C13_star.
 Print Assumptions C13_concat_refuted.
